@@ -41,6 +41,7 @@ type Interp struct {
 	regexCache         map[string]*regexModel
 	fnNameCache        map[*ssa.Function]string
 	fnsSeen            map[string]bool
+	pathsSinceRestart  int
 	initProblems       []string
 }
 
